@@ -53,7 +53,8 @@ def cases(draw, tier="quick", mode=None):
     n = 1 if mode in ("single", "single_class") else draw(st.integers(2, 4 if mode == "controlled" else 8))
     pipes = [draw(pipeline_specs(i)) for i in range(n)]
     schedule = draw(st.lists(st.integers(0, 7), max_size=300)) if mode == "controlled" else []
-    return {"mode": mode, "pipelines": pipes, "schedule": schedule}
+    # threads may legitimately share a name (e.g. a pool that names all its workers alike)
+    return {"mode": mode, "pipelines": pipes, "schedule": schedule, "same_thread_names": draw(st.sampled_from([False, False, True]))}
 
 
 def valid(case):
@@ -61,6 +62,8 @@ def valid(case):
         if case["mode"] not in ("single", "single_class", "controlled", "stress") or not case["pipelines"]:
             return False
         if not all(isinstance(x, int) and 0 <= x < 64 for x in case["schedule"]):
+            return False
+        if not isinstance(case.get("same_thread_names", False), bool):
             return False
         keysets = []
         from ..findings import all_keys
@@ -134,7 +137,7 @@ def check(case):
         results = res
         r.nontrivial = any_ctx or solos[0][2] >= 2
     elif mode == "controlled":
-        sc = Sched(jobs, case["schedule"])
+        sc = Sched(jobs, case["schedule"], thread_name="worker" if case.get("same_thread_names") else None)
         results = sc.run()
         if sc.aborted:
             r.skip = "scheduler-aborted"
@@ -157,7 +160,8 @@ def check(case):
         old = sys.getswitchinterval()
         sys.setswitchinterval(1e-6)
         try:
-            ts = [threading.Thread(target=w, args=(i,)) for i in range(len(jobs))]
+            kw = {"name": "worker"} if case.get("same_thread_names") else {}
+            ts = [threading.Thread(target=w, args=(i,), **kw) for i in range(len(jobs))]
             for t in ts:
                 t.start()
             for t in ts:
